@@ -256,6 +256,51 @@ func runC29(p *core.Prog, r *core.Report) {
 	// R2: late eACL evaluation against the object's header
 	r2 := r.Rule("C29.R2", "wherever the deferred eACL re-check flag (getStream.recheckEACL) is consulted, every return and every response send is preceded by: flag false, or CheckEACL on the header passed (ErrNotMatched tolerated); a return may also follow a failed CheckEACL (error propagated)", 6)
 	runLateEACL(p, r, r2)
+	// R8: the closure holding the deferred check is entered on every way through the heading part of a proxied GET
+	r8 := r.Rule("C29.R8", "a function that runs the deferred eACL re-check inside a once-closure (the proxied GET's handleInitResponse) hands every header it accepted to that closure: each return that is not a failure is dominated by the Once.Do call (a payload-only request has its heading message dropped, not its header's eACL evaluation)", 1)
+	nOnce := 0
+	for _, fn := range p.FuncsIn("pkg/services/object") {
+		if fn.Parent() == nil {
+			continue
+		}
+		reads := false
+		for _, b := range fn.Blocks {
+			for _, in := range b.Instrs {
+				if fa, ok := in.(*ssa.FieldAddr); ok && core.FieldAddrName(fa) == "(pkg/services/object.getStream).recheckEACL" {
+					reads = true
+				}
+			}
+		}
+		if !reads {
+			continue
+		}
+		par := fn.Parent()
+		var do ssa.CallInstruction
+		for _, s := range core.CallSites([]*ssa.Function{par}, func(s core.Site) bool { return s.Name == "(*sync.Once).Do" }) {
+			if mc, ok := s.Call.Common().Args[1].(*ssa.MakeClosure); ok && mc.Fn == fn {
+				do = s.Call
+			}
+		}
+		if do == nil {
+			continue
+		}
+		nOnce++
+		mr := core.NewMemReach(par)
+		for _, b := range par.Blocks {
+			ret, ok := b.Instrs[len(b.Instrs)-1].(*ssa.Return)
+			if !ok || len(ret.Results) == 0 {
+				continue
+			}
+			last := ret.Results[len(ret.Results)-1]
+			if last.Type().String() != "error" || core.KnownNonNil(mr, last, b) || failureThroughCell(last, b) {
+				continue
+			}
+			r8.Check(do.Block().Dominates(b), core.FuncName(par)+"#non-failure-return!header-given-to-recheck", p.InstrPos(ret), "the once-closure with the deferred eACL check was entered", "the heading part of a proxied GET can be accepted without entering the closure that evaluates the deferred eACL against the received header: the payload chunks that follow are relayed with no header-based eACL decision")
+		}
+	}
+	if nOnce == 0 {
+		r.Fatalf("C29.R8: no once-closure consulting recheckEACL found")
+	}
 	// R5: tokens attached only after verification
 	r5 := r.Rule("C29.R5", "request tokens are recorded only after the corresponding Verify*TokenMessage returned nil; handleRequestMetaHeader succeeds only if _handleRequestMetaHeader did", 4)
 	tokGuards := []core.Guard{
@@ -592,4 +637,48 @@ func runLateEACL(p *core.Prog, r *core.Report, h *core.RuleH) {
 	if n < 3 {
 		r.Fatalf("C29.R2: only %d functions consult the deferred eACL flag (expected ValidateHeader, WriteHeader, handleInitResponse closure, convertGetPrm)", n)
 	}
+}
+
+// failureThroughCell: `if err != nil { return ..., err }` where err is a variable captured by a closure (every use is a
+// fresh load of the cell): the return block is the true successor of a test `load(cell) != nil`, it is entered only
+// from there and neither stores to the cell nor calls anything before returning another load of it.
+func failureThroughCell(v ssa.Value, b *ssa.BasicBlock) bool {
+	ld, ok := v.(*ssa.UnOp)
+	if !ok || ld.Op != token.MUL || len(b.Preds) != 1 {
+		return false
+	}
+	ifi, ok := b.Preds[0].Instrs[len(b.Preds[0].Instrs)-1].(*ssa.If)
+	if !ok || b.Preds[0].Succs[0] != b {
+		return false
+	}
+	bo, ok := ifi.Cond.(*ssa.BinOp)
+	if !ok || bo.Op != token.NEQ {
+		return false
+	}
+	t, ok := bo.X.(*ssa.UnOp)
+	if c, isC := bo.Y.(*ssa.Const); !ok || !isC || !c.IsNil() || t.Op != token.MUL || t.X != ld.X {
+		return false
+	}
+	// nothing between the test and the return may change the cell
+	after := false
+	for _, in := range b.Preds[0].Instrs {
+		if in == ssa.Instruction(t) {
+			after = true
+			continue
+		}
+		if !after {
+			continue
+		}
+		switch in.(type) {
+		case *ssa.Store, ssa.CallInstruction:
+			return false
+		}
+	}
+	for _, in := range b.Instrs {
+		switch in.(type) {
+		case *ssa.Store, *ssa.Call, *ssa.Go, *ssa.Defer:
+			return false
+		}
+	}
+	return true
 }
